@@ -36,6 +36,10 @@ CHECKS = {
    text="TLC model-checks spec/ArrayMethods.tla (three universes: ints, strings, nested lists; the receiver is the state, every method an action; NonMutatingLeaveReceiver, SpliceConservation, IndexOfIncludes, SliceIdentity, PushPopInverse) and spec/StringMethods.tla (byte-offset dialect pinned by the repository's own script tests; ReceiverUntouched, PrefixLaw, SplitJoinLaw, SubstringWhole); every edge (receiver x method x argument tuple incl. omitted optionals, negative / zero / beyond-length indexes, 0..2 variadic items, callbacks using element / index / array) is one real call with result and receiver-after compared; chains of 4 calls on one variable come from TLC -simulate.",
    note="Trusted: json_encode / bin2hex as observation; documented semantics read as JavaScript Array semantics for arrays; for strings only what docs/strings.md and the repository's script tests fix is generated (no swapped substring bounds, no empty pieces with the default separator).",
    tech="TLA+ specs (ArrayMethods.tla, StringMethods.tla) checked by TLC; every edge and simulated chain replayed as real method calls"),
+ "C06": dict(cat="model_checking", ref="§5 C06",
+   text="TLC model-checks spec/Heap.tla: on the reference layer (names bound to cells, value routes copy, sharing routes alias) NoLeak and the frame rule hold; on the mechanism layer of the pinned code (copies share slots and nested arrays: named deviation cells-shared-on-copy) NoLeak is refuted. Every path of the graph — 4 shapes x 12 routes (assign, by-value parameter, return, getter, property store/load, element store/load, clone; &, by-ref parameter, object handle as sharing controls) x 1..2 of 13 mutations on either side — is rendered as a script that snapshots both names before and after every mutation and run in subprocess workers.",
+   note="Trusted: json_encode snapshots; a scenario whose mutation does not change the written name is counted as ineffective, not as a pass; closure capture excluded as in the property.",
+   tech="TLA+ spec (Heap.tla: reference + mechanism layer) checked by TLC; every scenario path replayed as a snapshotting script"),
 }
 NOT_YET = "check not built yet in this round (planned: TLA+ spec + conformance binding, see DESIGN.md §5)"
 def main():
